@@ -11,6 +11,7 @@
 #include "fiber_event.h"
 #include "fiber_manager.h"
 #include "fiber_spinlock.h"
+#include "fiber_verif.h"
 #if defined(__linux__)
 #include <sys/epoll.h>
 #include <sys/timerfd.h>
@@ -199,6 +200,7 @@ static void fiber_event_wake_sleepers(fiber_manager_t* manager,
                                       uint64_t trigger_count) {
   fiber_spinlock_lock(&sleep_spinlock);
   timer_trigger_count += trigger_count;
+  FIBER_VERIF_POINT(FV_TIMER_TICKS, &timer_trigger_count, 0);
 
   waiter_el_t* to_wake = NULL;
   while ((to_wake = waiter_remove_less_than(&sleepers, timer_trigger_count))) {
@@ -364,6 +366,7 @@ int fiber_wait_for_event(int fd, uint32_t events) {
   info->waiters = this_fiber;
   this_fiber->state = FIBER_STATE_WAITING;
   manager->spinlock_to_unlock = &info->spinlock;
+  FIBER_VERIF_POINT(FV_FD_WAIT_REGISTERED, (intptr_t)fd, this_fiber);
   fiber_manager_yield(manager);
 
   // if the fd is closed while we're polling, this_fiber->scratch will be
@@ -391,6 +394,7 @@ int fiber_sleep(uint32_t seconds, uint32_t useconds) {
   wake_info.waiter = this_fiber;
   this_fiber->state = FIBER_STATE_WAITING;
   manager->spinlock_to_unlock = &sleep_spinlock;
+  FIBER_VERIF_POINT(FV_SLEEP_REGISTERED, this_fiber, &wake_info.wake_time);
   fiber_manager_yield(manager);
 
   return FIBER_SUCCESS;
